@@ -41,15 +41,34 @@ func visited(root ast.Node) map[string]int {
 			m["<typed nil "+rv.Type().String()+">"]++
 			return false
 		}
+		if isZeroNode(rv) {
+			return true
+		}
 		m[key(rv)]++
 		return true
 	})
 	return m
 }
 
+// isZeroNode: a node struct held by value whose every field is zero (an unused ObjectName{}) says
+// nothing about the statement; it is ignored on both sides of the comparison.
+func isZeroNode(v reflect.Value) bool {
+	for v.Kind() == reflect.Ptr || v.Kind() == reflect.Interface {
+		if v.IsNil() {
+			return false
+		}
+		v = v.Elem()
+	}
+	return v.Kind() == reflect.Struct && v.NumField() > 0 && v.IsZero()
+}
+
 func reachable(root interface{}) map[string]int {
 	m := map[string]int{}
-	reflectx.Reachable(reflect.ValueOf(root), func(v reflect.Value) { m[key(v)]++ })
+	reflectx.Reachable(reflect.ValueOf(root), func(v reflect.Value) {
+		if !isZeroNode(v) {
+			m[key(v)]++
+		}
+	})
 	return m
 }
 
